@@ -1,8 +1,10 @@
 //@unit ping_tracker props=C14
 // C14 — relay keep-alive pings: only the latest ping counts.
 use vstd::prelude::*;
+use vstd::std_specs::cmp::OrdSpec;
 macro_rules! debug { ($($t:tt)*) => {}; }
 verus! {
+//@include shims/std_wide.rs
 //@include shims/time.rs
 use time::{Duration, Instant};
 impl Duration {
